@@ -47,6 +47,18 @@ def entries : List Entry := [
         if decide (Spec.Framable p) then pure ("ok " ++ toHex (Spec.frame p) ++ " " ++ toString (4 + p.length))
         else pure "err"
       | _ => none },
+  -- c11.sendlen <n> <fill>: a payload of n octets of one value (lengths whose hex form would not fit a line)
+  { kind := "M", op := "c11.sendlen", run := fun
+      | [n, f] => do
+        let p : Bytes := List.replicate (← n.toNat?) (UInt8.ofNat (← f.toNat?))
+        pure (showOutcomeWith (fun (b : Bytes) => toHex b ++ " " ++ toString b.length) (send p))
+      | _ => none },
+  { kind := "S", op := "c11.sendlen", run := fun
+      | [n, f] => do
+        let p : Bytes := List.replicate (← n.toNat?) (UInt8.ofNat (← f.toNat?))
+        if decide (Spec.Framable p) then pure ("ok " ++ toHex (Spec.frame p) ++ " " ++ toString (4 + p.length))
+        else pure "err"
+      | _ => none },
   { kind := "M", op := "c11.recv", run := fun
       | [h, _seg] => do
         let s ← Driver.C06.hexFast h
